@@ -246,3 +246,12 @@ def r3_transition_discipline(ctx, rid='C05.R3', only_event=None, text=None):
               'looked at again, so its concurrency slot / store record is not released. Reached from %d entry point(s): %s'
               % (core.short(fn), ev, 'was popped from a connection queue' if 'pop' in ev else 'moved towards closed', len(es), ', '.join(core.short(x) for x in es[:6])),
               witness=chain)
+
+
+_run_rules = run
+
+
+def run(ctx):
+    _run_rules(ctx)
+    from .. import boundaries
+    boundaries.check(ctx, 'C05.RB', 'C05')
